@@ -401,6 +401,32 @@ def _randomizer_bin_und(prog, rep, eng):
     rep.ob('D.fullnodes-restored', f, 'R[fullnodes, :] = 1; R[:, fullnodes] = 1', len(z) == 2 and fz == fo and gz == go and len(gz) == 1
            and all(s.lineno < loop.lineno for s in z) and all(s.lineno > loop.lineno for s in o),
            'rows and columns masked for fully connected nodes must be restored (same index set, same condition) after the loop', line=f.node.lineno)
+    # the masked nodes must be exactly the fully connected ones: restoring their rows/columns to 1 is the identity only then
+    fdef = [s for s in stmts if isinstance(s, ast.Assign) and len(s.targets) == 1 and isinstance(s.targets[0], ast.Name) and z
+            and s.targets[0].id in {n.id for zz in z for n in ast.walk(zz.targets[0].slice) if isinstance(n, ast.Name)}]
+    okf = False
+    whyf = 'cannot find the definition of the masked node set'
+    if fdef:
+        v = fdef[0].value
+        cmpn = None
+        for n in ast.walk(v):
+            if isinstance(n, ast.Compare) and len(n.ops) == 1 and isinstance(n.ops[0], ast.Eq):
+                cmpn = n
+        if cmpn is not None:
+            lhs = _offdiag_degree(m, cmpn.left, M, bool(diag_inf))
+            rhs = _lin_ax(cmpn.comparators[0], stmts)
+            if lhs is None or rhs is None:
+                lhs2 = _offdiag_degree(m, cmpn.comparators[0], M, bool(diag_inf))
+                rhs2 = _lin_ax(cmpn.left, stmts)
+                lhs, rhs = (lhs2, rhs2) if lhs2 is not None and rhs2 is not None else (lhs, rhs)
+            if lhs is not None and rhs is not None:
+                # degree_offdiag + lhs == n + rhs  must mean  degree_offdiag == n - 1
+                okf = (rhs - lhs) == -1
+                whyf = ('nodes are masked (and later restored to all-ones rows/columns) when their off-diagonal degree equals n%+d, not n-1: '
+                        'a node that is not fully connected gains connections on restore%s' % (rhs - lhs, ' (the inf marker on the diagonal counts as nonzero)' if diag_inf else ''))
+            else:
+                whyf = 'masked-node condition `%s` is not a recognisable comparison of the degree with the number of nodes' % norm(cmpn)
+    rep.ob('D.masked-nodes-are-fully-connected', f, fdef[0] if fdef else 'fullnodes = np.where(degree == n - 1)', okf, whyf, line=f.node.lineno)
     # restore order: fullnodes, then complement, then diagonal; and returns M
     for r in cfg.returns:
         rep.ob('B8.returns-working-copy', f, r, M in {x.id for x in ast.walk(r.value) if isinstance(x, ast.Name)}, 'result is not the working matrix')
@@ -408,6 +434,37 @@ def _randomizer_bin_und(prog, rep, eng):
     rep.ob('D.diagonal-marker-cleared', f, clear[0] if clear else 'np.fill_diagonal(R, 0)', bool(clear) and all(cfg.dominates(clear[0], r) for r in cfg.returns)
            and all(c.lineno < clear[0].lineno for c in post_c),
            'the inf marker on the diagonal must be cleared after the complement is undone and before returning', line=f.node.lineno)
+
+
+def _offdiag_degree(m, e, M, diag_nonzero):
+    """e == (off-diagonal degree of each node) + c for a constant c; returns c or None."""
+    tri = ('np.sum(np.triu(%s, 1), axis=0) + np.sum(np.triu(%s, 1), axis=1).T' % (M, M), 'np.sum(np.triu(%s, 1), axis=0) + np.sum(np.triu(%s, 1), axis=1)' % (M, M),
+           'np.sum(np.triu(%s, 1), axis=1) + np.sum(np.triu(%s, 1), axis=0)' % (M, M), 'np.sum(np.tril(%s, -1), axis=0) + np.sum(np.tril(%s, -1), axis=1)' % (M, M),
+           'np.sum(np.triu(%s, 1) + np.triu(%s, 1).T, axis=0)' % (M, M), 'np.sum(np.triu(%s, 1) + np.triu(%s, 1).T, axis=1)' % (M, M))
+    if any(m.match(e, t) for t in tri):
+        return 0
+    cnt = ('np.count_nonzero(%s, axis=0)' % M, 'np.count_nonzero(%s, axis=1)' % M, 'np.sum(%s != 0, axis=0)' % M, 'np.sum(%s != 0, axis=1)' % M)
+    if any(m.match(e, t) for t in cnt):
+        return 1 if diag_nonzero else 0
+    if isinstance(e, ast.BinOp) and isinstance(e.op, (ast.Add, ast.Sub)) and isinstance(e.right, ast.Constant) and isinstance(e.right.value, int):
+        b = _offdiag_degree(m, e.left, M, diag_nonzero)
+        if b is not None:
+            return b + (e.right.value if isinstance(e.op, ast.Add) else -e.right.value)
+    return None
+
+
+def _lin_ax(e, stmts):
+    """e == n + c where n is len(matrix); returns c or None"""
+    def is_n(x):
+        if isinstance(x, ast.Name):
+            d = [s for s in stmts if isinstance(s, ast.Assign) and len(s.targets) == 1 and isinstance(s.targets[0], ast.Name) and s.targets[0].id == x.id]
+            return len(d) == 1 and isinstance(d[0].value, ast.Call) and norm(d[0].value.func) == 'len'
+        return isinstance(x, ast.Call) and norm(x.func) == 'len'
+    if is_n(e):
+        return 0
+    if isinstance(e, ast.BinOp) and isinstance(e.op, (ast.Add, ast.Sub)) and isinstance(e.right, ast.Constant) and isinstance(e.right.value, int) and is_n(e.left):
+        return e.right.value if isinstance(e.op, ast.Add) else -e.right.value
+    return None
 
 
 def _strip_not(t):
@@ -488,6 +545,10 @@ def variants(root):
     B('holes of a only', fn, 'i_intersect = np.intersect1d(alliholes, alljholes)', 'i_intersect = alliholes', 'B4.')
     B('complement not undone', fn, '    if swap:\n        R = np.logical_not(R).astype(float)\n', '', 'D.complement-restored')
     B('full nodes not restored', fn, '        R[:, fullnodes] = 1\n', '        pass\n', 'D.fullnodes-restored')
+    B('full nodes counted with the diagonal marker', fn, "fullnodes = np.where((np.sum(np.triu(R, 1), axis=0) +\n                          np.sum(np.triu(R, 1), axis=1).T) == (ax - 1))",
+      'fullnodes = np.where(np.count_nonzero(R, axis=0) == (ax - 1))', 'D.masked-nodes')
+    N('full nodes via count_nonzero == n', fn, "fullnodes = np.where((np.sum(np.triu(R, 1), axis=0) +\n                          np.sum(np.triu(R, 1), axis=1).T) == (ax - 1))",
+      'fullnodes = np.where(np.count_nonzero(R, axis=0) == ax)')
     B('bool complement', fn, 'R = np.logical_not(R).astype(float)', 'R = np.logical_not(R)', 'E.complement')
     B('saved diagonal is a view', fn, 'savediag = np.diag(R).copy()', 'savediag = np.diag(R)', 'D.saved-diagonal')
     B('argument binarised in place', fn, 'R = binarize(R, copy=True)', 'R = binarize(R, copy=False)', 'A.')
